@@ -64,18 +64,47 @@ def line_slices(fn: ast.AST, var: str = "line") -> Dict[str, Tuple[int, int]]:
     return out
 
 
+def reader_slices(chk, which: str) -> Tuple[Dict[str, Optional[Tuple[int, int]]], str]:
+    """PDB field -> column range the reader takes it from, and how that was established.
+    'probe': the reader was interpreted on probe lines whose characters encode their own column (any factoring of the decoding code);
+    'syntax': fallback, the `line[a:b]` subscripts were read off the source."""
+    from checks import c08e
+
+    repo = chk.repo
+    sp = spec("pdb_columns.json")
+    cache = getattr(repo, "_reader_slices", None)
+    if cache is None:
+        cache = repo._reader_slices = {}
+    if which not in cache:
+        got = c08e.v1_columns(repo) if which == "v1" else c08e.v2_columns(repo, sp)
+        if got is not None and sum(1 for v in got.values() if v is not None) >= 3:
+            cache[which] = (got, "probe")
+        elif which == "v1":
+            fi = repo.func(P, "parse_pdb")
+            raw = line_slices(fi.node)
+            cache[which] = ({field: raw.get(var) for var, field in sp["parser_names"].items()}, "syntax")
+        else:
+            cache[which] = (line_slices(repo.func("parser_v2", "parse_pdb_atoms").node), "syntax")
+        if cache[which][1] == "syntax" and sum(1 for v in cache[which][0].values() if v is not None) < 3:
+            cache[which] = ({}, "none")  # neither evaluable nor in the pinned form: nothing is known about the columns
+    return cache[which]
+
+
 def check_pdb_columns(chk) -> Dict[str, Tuple[int, int]]:
     repo = chk.repo
     sp = spec("pdb_columns.json")
     fi = repo.func(P, "parse_pdb")
     chk.note_function(fi)
-    got = line_slices(fi.node)
+    slices, how = reader_slices(chk, "v1")
+    if how == "none":
+        chk.error("pdb-columns", fi.where, "the columns parse_pdb takes its fields from could not be established (reader not evaluable on probe lines, no `line[a:b]` subscripts found)")
+        return {}
     # restrict to the ATOM branch variables
     names = sp["parser_names"]
     res = {}
     for var, field in names.items():
         want = tuple(sp["atom"][field])
-        g = got.get(var)
+        g = slices.get(field)
         res[field] = g
         chk.expect(
             g == want,
@@ -88,16 +117,36 @@ def check_pdb_columns(chk) -> Dict[str, Tuple[int, int]]:
             found=list(g) if g else None,
         )
     # MODEL serial
-    ms = [n for n in ast.walk(fi.node) if isinstance(n, ast.If) and norm(n.test) in ("line.startswith('MODEL')",)]
-    ok = False
-    if ms:
-        sls = line_slices(ast.Module(body=ms[0].body, type_ignores=[]))
-        ok = sls.get("model") == tuple(sp["model_serial"])
+    if how == "probe":
+        ok = slices.get("model") == tuple(sp["model_serial"])
+    else:
+        ms = [n for n in ast.walk(fi.node) if isinstance(n, ast.If) and norm(n.test) in ("line.startswith('MODEL')",)]
+        ok = False
+        if ms:
+            sls = line_slices(ast.Module(body=ms[0].body, type_ignores=[]))
+            ok = sls.get("model") == tuple(sp["model_serial"])
     chk.expect(ok, "pdb-columns", fi.where, "MODEL serial is read from columns 11-14", "MODEL serial is not read from line[10:14]", K(fi, "column:model"))
     return res
 
 
 def check_parse_pdb(chk) -> None:
+    repo = chk.repo
+    fi = repo.func(P, "parse_pdb")
+    from checks import c08e
+
+    evaluated = False
+    try:
+        evaluated = c08e.check_v1_reader_eval(chk)
+    except AnalysisError:
+        raise
+    except Exception as ex:
+        chk.ok("pdb-reader-eval", fi.where, f"evaluation of parse_pdb failed internally ({type(ex).__name__}): the pinned-form rules decide")
+    if not evaluated:
+        _check_parse_pdb_form(chk)
+    _check_try_parse_int(chk)
+
+
+def _check_parse_pdb_form(chk) -> None:
     repo = chk.repo
     fi = repo.func(P, "parse_pdb")
     fm = FlowMap(fi.node)
@@ -126,6 +175,10 @@ def check_parse_pdb(chk) -> None:
         au = conv.get("auth")
         ok = ok and au is not None and flat(au) == flat("ResidueAuth(chain_identifier, residue_number, insertion_code, residue_name)")
         chk.expect(ok, "pdb-atom-record", fi.site(b), "Atom(None, None, ResidueAuth(chain, number, icode, name), model, atom name, x, y, z, occupancy)", "the Atom built from a PDB line does not carry (auth identity, current model, name, x, y, z, occupancy) in field order", K(fi, "atom-record"))
+
+
+def _check_try_parse_int(chk) -> None:
+    repo = chk.repo
     tpi = repo.func(P, "try_parse_int")
     chk.note_function(tpi)
     arg = tpi.node.args.args[0].arg
@@ -664,6 +717,15 @@ def check_group(chk) -> None:
     repo = chk.repo
     fi = repo.func(P, "group_atoms")
     chk.note_function(fi)
+    from checks import c08e
+
+    try:
+        if c08e.check_group_eval(chk):
+            return  # decided on the current code by evaluation; the pinned form below is only a fallback
+    except AnalysisError:
+        raise
+    except Exception as ex:  # an internal fault of the evaluated rule must not hide the pinned-form reading
+        chk.ok("group-eval", fi.where, f"evaluation of group_atoms failed internally ({type(ex).__name__}): the pinned-form rules decide")
     keys = [s for s in ast.walk(fi.node) if isinstance(s, ast.Assign) and norm(s.targets[0]) in ("key", "key_previous") and isinstance(s.value, ast.Tuple)]
     fields = [sorted(x.attr for x in ast.walk(k.value) if isinstance(x, ast.Attribute)) for k in keys]
     ok = len(keys) == 2 and all(f == ["auth", "label", "model"] for f in fields)
